@@ -14,40 +14,74 @@ class TywitError(Exception):
 
 
 def build_repo(features=()):
+    """builds /repo's current tree and returns (rlib, [library search dirs]). Artifacts are kept per tree *content*: cargo names the
+    workspace members' artifacts independently of where the tree lies and decides freshness by mtime, so a shared target directory
+    would happily reuse the proc-macro built from another tree whose sources merely look older (a restored snapshot, an rsync copy)."""
+    import fcntl
+    import shutil
+    import time
+    import facts
     repo = os.environ.get('VERIF_REPO', '/repo')
     td = os.path.join(VERIF, '.cache', 'target', 'tywit')
-    cmd = ['cargo', 'build', '--offline', '--message-format=json', '-p', 'unimock', '--lib']
-    if features:
-        cmd += ['--features', ','.join(features)]
-    env = dict(os.environ, CARGO_TARGET_DIR=td, CARGO_NET_OFFLINE='true')
-    env.pop('RUSTC_WORKSPACE_WRAPPER', None)
-    r = subprocess.run(cmd, cwd=repo, env=env, capture_output=True, text=True)
-    if r.returncode != 0:
-        raise TywitError('building /repo failed:\n' + r.stderr[-3000:])
-    rlib = None
-    for line in r.stdout.splitlines():
+    th = facts.tree_hash() + ('-' + '-'.join(features) if features else '')
+    per_tree = os.path.join(VERIF, '.cache', 'tywit', th)
+    deps = os.path.join(td, 'debug', 'deps')
+    os.makedirs(os.path.join(VERIF, '.cache', 'tywit'), exist_ok=True)
+    with open(os.path.join(VERIF, '.cache', 'tywit', 'lock'), 'w') as lk:
+        fcntl.flock(lk, fcntl.LOCK_EX)
         try:
-            m = json.loads(line)
-        except ValueError:
-            continue
-        if m.get('reason') == 'compiler-artifact' and m.get('target', {}).get('name') == 'unimock' and 'lib' in m['target'].get('kind', []):
-            # use the hashed artifact in deps/ (its name depends on the package's path): the un-hashed copy that cargo "uplifts" to
-            # target/debug/libunimock.rlib is shared by every tree built into this target directory and may belong to another tree
-            for f in m.get('filenames', []):
-                if f.endswith('.rmeta') and os.sep + 'deps' + os.sep in f and os.path.exists(f[:-6] + '.rlib'):
-                    rlib = f[:-6] + '.rlib'
-            if rlib is None:
-                for f in m.get('filenames', []):
-                    if f.endswith('.rlib') and os.sep + 'deps' + os.sep in f:
-                        rlib = f
-    if not rlib:
-        raise TywitError('rlib of unimock not found in cargo output')
-    return rlib, os.path.join(td, 'debug', 'deps')
+            done = os.path.join(per_tree, 'ok')
+            if not os.path.exists(done):
+                # force the two workspace members stale (third-party dependencies stay cached)
+                fp = os.path.join(td, 'debug', '.fingerprint')
+                if os.path.isdir(fp):
+                    for d in os.listdir(fp):
+                        if d.startswith('unimock-') or d.startswith('unimock_macros-'):
+                            shutil.rmtree(os.path.join(fp, d), ignore_errors=True)
+                cmd = ['cargo', 'build', '--offline', '--message-format=json', '-p', 'unimock', '--lib']
+                if features:
+                    cmd += ['--features', ','.join(features)]
+                env = dict(os.environ, CARGO_TARGET_DIR=td, CARGO_NET_OFFLINE='true')
+                env.pop('RUSTC_WORKSPACE_WRAPPER', None)
+                r = subprocess.run(cmd, cwd=repo, env=env, capture_output=True, text=True)
+                if r.returncode != 0:
+                    raise TywitError('building /repo failed:\n' + r.stderr[-3000:])
+                arts = []
+                for line in r.stdout.splitlines():
+                    try:
+                        m = json.loads(line)
+                    except ValueError:
+                        continue
+                    if m.get('reason') == 'compiler-artifact' and m.get('target', {}).get('name') in ('unimock', 'unimock_macros'):
+                        # the hashed artifacts in deps/ (the un-hashed copies cargo "uplifts" next to them are shared by every tree)
+                        arts += [f for f in m.get('filenames', []) if os.sep + 'deps' + os.sep in f]
+                        arts += [f[:-6] + '.rlib' for f in m.get('filenames', []) if f.endswith('.rmeta') and os.sep + 'deps' + os.sep in f and os.path.exists(f[:-6] + '.rlib')]
+                shutil.rmtree(per_tree, ignore_errors=True)
+                os.makedirs(per_tree)
+                for f in sorted(set(arts)):
+                    shutil.copy2(f, os.path.join(per_tree, os.path.basename(f)))
+                if not any(f.startswith('libunimock-') and f.endswith('.rlib') for f in os.listdir(per_tree)):
+                    raise TywitError('rlib of unimock not found in cargo output')
+                open(done, 'w').write('ok')
+            os.utime(per_tree, None)
+            # collect per-tree copies that have not been used for an hour
+            base = os.path.join(VERIF, '.cache', 'tywit')
+            for d in os.listdir(base):
+                q = os.path.join(base, d)
+                if os.path.isdir(q) and q != per_tree and time.time() - os.path.getmtime(q) > 3600:
+                    shutil.rmtree(q, ignore_errors=True)
+        finally:
+            fcntl.flock(lk, fcntl.LOCK_UN)
+    rlib = [os.path.join(per_tree, f) for f in os.listdir(per_tree) if f.startswith('libunimock-') and f.endswith('.rlib')][0]
+    return rlib, [per_tree, deps]
 
 
 def compile_one(path, rlib, deps, outdir):
     name = os.path.basename(path)[:-3]
-    cmd = ['rustc', '--edition', '2021', '--crate-type', 'lib', '--emit=metadata', '--error-format=json', '-L', 'dependency=' + deps,
+    ldirs = []
+    for d_ in (deps if isinstance(deps, (list, tuple)) else [deps]):
+        ldirs += ['-L', 'dependency=' + d_]
+    cmd = ['rustc', '--edition', '2021', '--crate-type', 'lib', '--emit=metadata', '--error-format=json'] + ldirs + [
            '--extern', 'unimock=' + rlib, '--crate-name', name, '-o', os.path.join(outdir, name + '.rmeta'), path]
     r = subprocess.run(cmd, capture_output=True, text=True)
     diags = []
